@@ -7,6 +7,7 @@
     byte it reads. *)
 From Coq Require Import NArith List Bool.
 From Pi2 Require Import ML.Syntax ML.Subst ML.Machine Interp.Calls Interp.Facts Interp.RoundTrip.
+From Pi2 Require Import Interp.SerialLib Gen.PySerial Interp.GenPySerialAgree.
 Import ListNotations.
 Open Scope N_scope.
 
@@ -124,3 +125,44 @@ Proof. witness. Qed.
 Theorem C14_defect_D7g_zero_stops :
   exists rest tr, handled 0 = false /\ deser (only 6) (0 :: rest) tr = Some tr /\ rest <> [].
 Proof. exists [12], (fresh_tracker Proof []). repeat split. discriminate. Qed.
+
+(* ---------------------------------------------------------------------------------------------- *)
+(** The same statements about the functions REGENERATED from the current source (translators/py_serial.py ->
+    Gen/PySerial.v): [gen_ser_run] writes with the translated methods of SerializingInterpreter (opcodes from
+    instruction.py), [gen_deser] is the translated dispatch loop of deserialize_instructions.  Both run the
+    hand-written tracker [stateful_step] for the super() / interpreter calls. *)
+Theorem C14_source_agreement :
+  (forall tbl tr c, gen_emit_tbl tbl tr c = emit tbl tr c) /\
+  (forall op bs tr, gen_decode op bs tr = decode dflags_fixed op bs tr) /\
+  (forall bs tr, gen_deser bs tr = deser dflags_fixed bs tr).
+Proof. split; [exact gen_emit_tbl_agrees | split; [exact gen_decode_agrees | exact gen_deser_agrees]]. Qed.
+Print Assumptions C14_source_agreement.
+
+Theorem C14_source_roundtrip : forall cs tbl tr tblF trF bs,
+  gen_ser_run tbl tr cs = Some (tblF, trF, bs) ->
+  stateful_run tr cs = Some trF /\
+  gen_deser bs (rn_tracker (numbering tblF) tr) = Some (rn_tracker (numbering tblF) trF).
+Proof.
+  intros cs tbl tr tblF trF bs H. rewrite gen_ser_run_agrees in H. rewrite gen_deser_agrees.
+  exact (C14_roundtrip _ _ _ _ _ _ H).
+Qed.
+Print Assumptions C14_source_roundtrip.
+
+Theorem C14_source_rejects_unknown : forall op rest tr,
+  handled op = false -> gen_deser (op :: rest) tr = None.
+Proof. intros. rewrite gen_deser_agrees. apply deser_rejects_unknown. assumption. Qed.
+
+Theorem C14_source_rejects_truncated : forall cs tbl tr tbl1 tr1 bs c tr2 tbl2 op ops k,
+  gen_ser_run tbl tr cs = Some (tbl1, tr1, bs) ->
+  gen_ser_step tbl1 tr1 c = Some (tbl2, tr2, op :: ops) -> (k < length ops)%nat ->
+  gen_deser (bs ++ op :: firstn k ops) (rn_tracker (numbering tbl1) tr) = None.
+Proof.
+  intros cs tbl tr tbl1 tr1 bs c tr2 tbl2 op ops k H1 H2 Hk.
+  rewrite gen_ser_run_agrees in H1. rewrite gen_ser_step_agrees in H2. rewrite gen_deser_agrees.
+  eapply deser_rejects_truncated; eassumption.
+Qed.
+Print Assumptions C14_source_rejects_truncated.
+
+Example C14_source_nonvacuous :
+  exists tblF trF bs, gen_ser_run [] ex_tr0 ex_calls = Some (tblF, trF, bs) /\ length bs = 36%nat.
+Proof. vm_compute. eexists _, _, _. split; reflexivity. Qed.
